@@ -54,3 +54,233 @@ fn x_days_4k() {
 fn x_days_exp21() {
     whole_days_1900(1 << 21, 2958465);
 }
+
+fn whole_days_1904(lo: u32, hi: u32) {
+    let n: u32 = kani::any();
+    kani::assume(lo <= n && n <= hi);
+    kani::cover!(n == lo);
+    kani::cover!(n == hi);
+    let ms = ms_of(n as f64, true);
+    assert!(ms == (n as i64 + 1462) * DAY_MS);
+}
+#[kani::proof]
+#[kani::stub(chrono::TimeDelta::milliseconds, rec_milliseconds)]
+fn x_days04_exp21() {
+    whole_days_1904(1 << 21, 2958465);
+}
+#[kani::proof]
+#[kani::stub(chrono::TimeDelta::milliseconds, rec_milliseconds)]
+fn x_days04_exp10() {
+    whole_days_1904(1 << 10, (1 << 11) - 1);
+}
+
+/// v = q / 1024 (exact); the exact product v * 86_400_000 = q * 84375 is an integer
+fn dyadic10_1900(lo: u32, hi: u32) {
+    let q: u32 = kani::any();
+    kani::assume(lo <= q && q <= hi);
+    kani::cover!(q == lo);
+    kani::cover!(q == hi);
+    let v = q as f64 * (1.0 / 1024.0);
+    let ms = ms_of(v, false);
+    let qq = if q >= 60 * 1024 { q as i64 } else { q as i64 + 1024 };
+    assert!(ms == qq * 84375);
+}
+#[kani::proof]
+#[kani::stub(chrono::TimeDelta::milliseconds, rec_milliseconds)]
+fn x_dy10_exp31() {
+    dyadic10_1900(1 << 31, 2958466 * 1024 - 1);
+}
+#[kani::proof]
+#[kani::stub(chrono::TimeDelta::milliseconds, rec_milliseconds)]
+fn x_dy10_exp20() {
+    dyadic10_1900(1 << 20, (1 << 21) - 1);
+}
+
+/// v = q / 2^20: exact product q * 84375 / 1024, rounded half away from zero
+fn dyadic20_1900(lo: u64, hi: u64) {
+    let q: u64 = kani::any();
+    kani::assume(lo <= q && q <= hi);
+    kani::cover!(q == lo);
+    kani::cover!(q == hi);
+    let v = q as f64 * (1.0 / 1048576.0);
+    let ms = ms_of(v, false);
+    let qq = if q >= 60 << 20 { q as i64 } else { q as i64 + (1 << 20) };
+    assert!(ms == (qq * 84375 + 512) >> 10);
+}
+#[kani::proof]
+#[kani::stub(chrono::TimeDelta::milliseconds, rec_milliseconds)]
+fn x_dy20_exp36() {
+    dyadic20_1900(1 << 36, (1 << 36) + (1 << 35));
+}
+#[kani::proof]
+#[kani::stub(chrono::TimeDelta::milliseconds, rec_milliseconds)]
+fn x_dy20_exp30() {
+    dyadic20_1900(1 << 30, (1 << 31) - 1);
+}
+
+#[kani::proof]
+#[kani::stub(chrono::TimeDelta::milliseconds, rec_milliseconds)]
+fn x_mono_quarter() {
+    let i: u16 = kani::any();
+    let j: u16 = kani::any();
+    kani::assume(i <= j && j <= 400);
+    let a = i as f64 / 4.0;
+    let b = j as f64 / 4.0;
+    assert!(ms_of(a, false) <= ms_of(b, false));
+}
+
+/// totality, everything real
+#[kani::proof]
+fn x_total_real() {
+    let v: f64 = kani::any();
+    let is_1904: bool = kani::any();
+    let _ = ExcelDateTime::new(v, ExcelDateTimeType::DateTime, is_1904).as_datetime();
+}
+
+static mut ADD_RESULT: Option<NaiveDateTime> = None;
+fn rec_checked_add_signed(this: NaiveDateTime, rhs: TimeDelta) -> Option<NaiveDateTime> {
+    unsafe { ADD_RESULT }
+}
+/// totality, real TimeDelta::milliseconds, stubbed calendar addition
+#[kani::proof]
+#[kani::stub(chrono::NaiveDateTime::checked_add_signed, rec_checked_add_signed)]
+fn x_total_realms() {
+    let v: f64 = kani::any();
+    let is_1904: bool = kani::any();
+    let _ = ExcelDateTime::new(v, ExcelDateTimeType::DateTime, is_1904).as_datetime();
+}
+
+fn ymd_hms_milli(y: i32, m: u32, d: u32, h: u32, mi: u32, s: u32, ms: u32) -> Option<NaiveDateTime> {
+    Some(NaiveDate::from_ymd_opt(y, m, d).unwrap().and_hms_milli_opt(h, mi, s, ms).unwrap())
+}
+#[kani::proof]
+fn x_anchor_1() {
+    assert!(ExcelDateTime::new(1.0, ExcelDateTimeType::DateTime, false).as_datetime() == ymd_hms_milli(1900, 1, 1, 0, 0, 0, 0));
+    assert!(ExcelDateTime::new(2958465.0, ExcelDateTimeType::DateTime, false).as_datetime() == ymd_hms_milli(9999, 12, 31, 0, 0, 0, 0));
+    assert!(ExcelDateTime::new(0.0, ExcelDateTimeType::DateTime, true).as_datetime() == ymd_hms_milli(1904, 1, 1, 0, 0, 0, 0));
+    assert!(ExcelDateTime::new(1e20, ExcelDateTimeType::DateTime, true).as_datetime() == None);
+}
+
+/// |ms * 2^s - N| <= 2^s * (1/2 + 1/16) where N / 2^s is the exact real product f * 86_400_000
+fn tol_1900(e_lo: i32, e_hi: i32) {
+    let e: i32 = kani::any();
+    kani::assume(e_lo <= e && e <= e_hi);
+    let m: u64 = kani::any();
+    kani::assume(m < (1u64 << 52));
+    let v = f64::from_bits((((1023 + e) as u64) << 52) | m);
+    kani::assume(v < 2958466.0);
+    kani::cover!(v == 59.5);
+    let ms = ms_of(v, false);
+    // exact value of v: (2^52 + m) * 2^(e-52); shim adds 1 below 60
+    let s = (52 - e) as u32; // v = mant / 2^s, s in 31..=80
+    let mant = (1u128 << 52) + m as u128;
+    // exact f * 2^s
+    let fnum: u128 = if v >= 60.0 { mant } else { mant + (1u128 << s) };
+    // exact product * 2^s = fnum * 84375 * 1024 ; compare ms * 2^s
+    let lhs: u128 = (ms as u128) << s;
+    let rhs: u128 = fnum * 84375 * 1024;
+    let tol: u128 = (1u128 << (s - 1)) + (1u128 << (s - 4));
+    assert!(ms >= 0);
+    assert!(lhs <= rhs + tol && rhs <= lhs + tol);
+}
+#[kani::proof]
+#[kani::stub(chrono::TimeDelta::milliseconds, rec_milliseconds)]
+fn x_tol_e15() {
+    tol_1900(15, 15);
+}
+#[kani::proof]
+#[kani::stub(chrono::TimeDelta::milliseconds, rec_milliseconds)]
+fn x_tol_e5() {
+    tol_1900(5, 5);
+}
+#[kani::proof]
+#[kani::stub(chrono::TimeDelta::milliseconds, rec_milliseconds)]
+fn x_tol_all() {
+    tol_1900(-28, 21);
+}
+
+#[kani::proof]
+#[kani::stub(chrono::TimeDelta::milliseconds, rec_milliseconds)]
+fn x_mono_f64() {
+    let a: f64 = kani::any();
+    let b: f64 = kani::any();
+    kani::assume(61.0 <= a && a <= b && b < 2958466.0);
+    assert!(ms_of(a, false) <= ms_of(b, false));
+}
+#[kani::proof]
+#[kani::stub(chrono::TimeDelta::milliseconds, rec_milliseconds)]
+fn x_mono_quarter_all() {
+    let i: u32 = kani::any();
+    let j: u32 = kani::any();
+    kani::assume(i <= j && j <= 2958466 * 4);
+    kani::assume(!(59 * 4 <= i && i < 61 * 4) && !(59 * 4 <= j && j < 61 * 4));
+    let a = i as f64 / 4.0;
+    let b = j as f64 / 4.0;
+    assert!(ms_of(a, false) <= ms_of(b, false));
+}
+
+fn dyadic14_1900(lo: u64, hi: u64) {
+    let q: u64 = kani::any();
+    kani::assume(lo <= q && q <= hi);
+    kani::cover!(q == lo);
+    kani::cover!(q == hi);
+    let v = q as f64 * (1.0 / 16384.0);
+    let ms = ms_of(v, false);
+    let qq = if q >= 60 << 14 { q as i64 } else { q as i64 + (1 << 14) };
+    assert!(ms == (qq * 84375 + 8) >> 4);
+}
+#[kani::proof]
+#[kani::stub(chrono::TimeDelta::milliseconds, rec_milliseconds)]
+fn x_dy14_hi() {
+    dyadic14_1900(1 << 30, (2958466 << 14) - 1);
+}
+#[kani::proof]
+#[kani::stub(chrono::TimeDelta::milliseconds, rec_milliseconds)]
+fn x_dy14_all() {
+    dyadic14_1900(0, (2958466 << 14) - 1);
+}
+
+#[kani::proof]
+fn x_total_excl() {
+    let v: f64 = kani::any();
+    let is_1904: bool = kani::any();
+    kani::assume(!(v <= -1.0e11));
+    let _ = ExcelDateTime::new(v, ExcelDateTimeType::DateTime, is_1904).as_datetime();
+}
+
+static mut REC_SELF: (u64, u8, bool) = (0, 0, false);
+static mut STUB_DT: Option<NaiveDateTime> = None;
+fn rec_as_datetime(this: &ExcelDateTime) -> Option<NaiveDateTime> {
+    unsafe {
+        REC_CALLS += 1;
+        REC_SELF = crate::datatype::verif_kani_datatype::edt_parts(this);
+        STUB_DT
+    }
+}
+fn any_naive_datetime() -> NaiveDateTime {
+    let y: i32 = kani::any();
+    let o: u32 = kani::any();
+    kani::assume(-10000 <= y && y <= 10000 && 1 <= o && o <= 365);
+    let s: u32 = kani::any();
+    let n: u32 = kani::any();
+    kani::assume(s < 86400 && n < 1_000_000_000);
+    NaiveDate::from_yo_opt(y, o).unwrap().and_time(NaiveTime::from_num_seconds_from_midnight_opt(s, n).unwrap())
+}
+#[kani::proof]
+#[kani::stub(crate::datatype::ExcelDateTime::as_datetime, rec_as_datetime)]
+fn x_trait_float() {
+    let dt = if kani::any() { Some(any_naive_datetime()) } else { None };
+    unsafe {
+        STUB_DT = dt;
+        REC_CALLS = 0;
+    }
+    let f: f64 = kani::any();
+    let r = Data::Float(f).as_datetime();
+    unsafe {
+        assert!(REC_CALLS == 1);
+        assert!(REC_SELF == (f.to_bits(), 1, false));
+    }
+    assert!(r == dt);
+    assert!(Data::Float(f).as_date() == dt.map(|d| d.date()));
+    assert!(Data::Float(f).as_time() == dt.map(|d| d.time()));
+}
